@@ -5,6 +5,7 @@
   Trusted (part of the correspondence check), never used in a theorem.
 -/
 import SuironVerif.Model.Arith
+import SuironVerif.Model.Parse
 namespace Suiron.Native
 
 def pad (k : Nat) (s : String) : String :=
@@ -13,6 +14,52 @@ def pad (k : Nat) (s : String) : String :=
 partial def stripEven (m : Nat) (e : Int) : Nat × Int :=
   if e < 0 && m % 2 == 0 && m != 0 then stripEven (m / 2) (e + 1) else (m, e)
 
+/-! ### `str::parse::<f64>()` on digit strings with an optional sign and one period: exact
+      (correctly rounded, ties to even) conversion of m / 10^k. -/
+
+def roundDiv (n d : Nat) : Nat :=
+  let q := n / d
+  let r := n % d
+  if 2 * r < d then q else if 2 * r > d then q + 1 else if q % 2 == 0 then q else q + 1
+
+def decToF64 (neg : Bool) (m k : Nat) : UInt64 :=
+  let signBit : Nat := if neg then 2^63 else 0
+  if m == 0 then UInt64.ofNat signBit else
+  let d := 10 ^ k
+  -- e2 = floor(log2(m / d))
+  let e0 : Int := (Int.ofNat (Nat.log2 m)) - (Int.ofNat (Nat.log2 d))
+  let ge (e : Int) : Bool := if e ≥ 0 then m ≥ d * 2 ^ e.toNat else m * 2 ^ (-e).toNat ≥ d
+  let e2 : Int := if ge (e0 + 1) then e0 + 1 else if ge e0 then e0 else e0 - 1
+  let qexp : Int := if e2 - 52 < -1074 then -1074 else e2 - 52
+  let mant0 : Nat := if qexp ≥ 0 then roundDiv m (d * 2 ^ qexp.toNat) else roundDiv (m * 2 ^ (-qexp).toNat) d
+  let (mant, qexp) := if mant0 ≥ 2^53 then (mant0 / 2, qexp + 1) else (mant0, qexp)
+  if mant < 2^52 then UInt64.ofNat (signBit + mant)
+  else
+    let biased : Int := qexp + 1075
+    if biased ≥ 2047 then UInt64.ofNat (signBit + 2047 * 2^52)
+    else UInt64.ofNat (signBit + biased.toNat * 2^52 + (mant - 2^52))
+
+partial def log10Up (n d k : Nat) : Nat := if n ≥ d * 10 ^ (k + 1) then log10Up n d (k + 1) else k
+partial def log10Down (n d k : Nat) : Nat := if n * 10 ^ k ≥ d then k else log10Down n d (k + 1)
+/-- floor(log10(n/d)) for n, d > 0 -/
+def log10Floor (n d : Nat) : Int :=
+  if n ≥ d then Int.ofNat (log10Up n d 0) else - Int.ofNat (log10Down n d 1)
+
+def fmtDigits (digits : String) (k : Int) : String :=
+  -- value = 0.d1d2... * 10^(k+1), i.e. d1 . d2 ... * 10^k
+  let ds := digits.toList
+  let n := ds.length
+  if k ≥ 0 then
+    let ip := k.toNat + 1
+    if n ≤ ip then digits ++ String.ofList (List.replicate (ip - n) '0')
+    else String.ofList (ds.take ip) ++ "." ++ String.ofList (ds.drop ip)
+  else "0." ++ String.ofList (List.replicate ((-k).toNat - 1) '0') ++ digits
+
+def stripZeros (s : String) : String :=
+  let l := (s.toList.reverse.dropWhile (· == '0')).reverse
+  if l.isEmpty then "0" else String.ofList l
+
+/-- Rust's `Display for f64`: the shortest decimal that parses back to the same double (no exponent). -/
 def showF64 (b : UInt64) : String :=
   let sign := fSign b
   let ex := fExp b
@@ -23,16 +70,24 @@ def showF64 (b : UInt64) : String :=
   else
     let m0 : Nat := if ex == 0 then mant else 2^52 + mant
     let e0 : Int := if ex == 0 then -1074 else (Int.ofNat ex) - 1075
-    let (m, e) := stripEven m0 e0
-    if e ≥ 0 then
-      let n := m * 2 ^ e.toNat
-      if n < 2^53 then sg ++ toString n else "<?f:" ++ toString b.toNat ++ ">"
-    else
-      let k := (-e).toNat
-      let n := m * 5 ^ k
-      if (toString n).length ≤ 15 then
-        sg ++ toString (n / 10^k) ++ "." ++ pad k (toString (n % 10^k))
-      else "<?f:" ++ toString b.toNat ++ ">"
+    let N : Nat := if e0 ≥ 0 then m0 * 2 ^ e0.toNat else m0
+    let D : Nat := if e0 ≥ 0 then 1 else 2 ^ (-e0).toNat
+    let k0 := log10Floor N D
+    let target : UInt64 := UInt64.ofNat (b.toNat % 2^63)
+    let rec try_ (p : Nat) (fuel : Nat) : String :=
+      match fuel with
+      | 0 => "<?f:" ++ toString b.toNat ++ ">"
+      | fuel+1 =>
+        let sh : Int := (Int.ofNat p) - 1 - k0
+        let num := if sh ≥ 0 then N * 10 ^ sh.toNat else N
+        let den := if sh ≥ 0 then D else D * 10 ^ (-sh).toNat
+        let I0 := roundDiv num den
+        let (I, k) := if I0 ≥ 10 ^ p then (I0 / 10, k0 + 1) else (I0, k0)
+        let ex10 : Int := k - (Int.ofNat p) + 1
+        let back := if ex10 ≥ 0 then decToF64 false (I * 10 ^ ex10.toNat) 0 else decToF64 false I (-ex10).toNat
+        if back == target then sg ++ fmtDigits (stripZeros (toString I)) k
+        else try_ (p + 1) fuel
+    try_ 1 18
 
 def ops : FloatOps where
   add a b := (Float.ofBits a + Float.ofBits b).toBits
@@ -41,5 +96,36 @@ def ops : FloatOps where
   div a b := (Float.ofBits a / Float.ofBits b).toBits
   ofInt i := (Int64.ofInt i).toFloat.toBits
   showF := showF64
+
+
+/-- digits with at most one period, at least one digit; returns (mantissa, fractional digits) -/
+def scanDecimal : Parse.Text → Nat → Nat → Bool → Bool → Option (Nat × Nat)
+  | [], m, k, _, any => if any then some (m, k) else none
+  | c :: rest, m, k, seenDot, any =>
+    if Parse.isDigit c then scanDecimal rest (m * 10 + (c.toNat - '0'.toNat)) (if seenDot then k + 1 else k) seenDot true
+    else if c == '.' && !seenDot then scanDecimal rest m k true any
+    else none
+
+def parseF64 (s : Parse.Text) : Option UInt64 :=
+  let (neg, body) := match s with
+    | '-' :: r => (true, r)
+    | '+' :: r => (false, r)
+    | r => (false, r)
+  (scanDecimal body 0 0 false false).map fun (m, k) => decToF64 neg m k
+
+/-- `char::is_alphabetic` on the alphabet the generators stay in (ASCII, Latin-1 letters, Latin Extended,
+    IPA, Greek, Cyrillic). -/
+def isAlphabetic (c : Char) : Bool :=
+  let n := c.toNat
+  ('a'.toNat ≤ n && n ≤ 'z'.toNat) || ('A'.toNat ≤ n && n ≤ 'Z'.toNat) ||
+  n == 0xAA || n == 0xB5 || n == 0xBA ||
+  (0xC0 ≤ n && n ≤ 0x2AF && n != 0xD7 && n != 0xF7) ||
+  (0x370 ≤ n && n ≤ 0x373) || n == 0x376 || n == 0x377 || (0x37A ≤ n && n ≤ 0x37D) || n == 0x37F ||
+  n == 0x386 || (0x388 ≤ n && n ≤ 0x38A) || n == 0x38C || (0x38E ≤ n && n ≤ 0x3A1) ||
+  (0x3A3 ≤ n && n ≤ 0x3F5) || (0x3F7 ≤ n && n ≤ 0x481) || (0x48A ≤ n && n ≤ 0x52F)
+
+def pops : Parse.POps where
+  parseF := parseF64
+  isAlpha := isAlphabetic
 
 end Suiron.Native
